@@ -218,7 +218,7 @@ Qed.
 (* conditions on one operation and its outcome under which Consistent is kept: a do must touch a
    non-ignored resource and perform only exactly reversible leaves (also when it is refused half-way);
    an undo must not drop *)
-Definition step_ok (ign : list (list N)) (o : op) (r : sres) : Prop :=
+Definition step_ok (ign : list N -> bool) (o : op) (r : sres) : Prop :=
   match o with
   | ODo c => interesting_in ign c = true
              /\ match r with SOk _ k _ => irrev k = false | SErr _ k _ => irrev k = false | SNotListed _ k => True end
